@@ -147,13 +147,22 @@ fn own_index(b: usize, s: usize, p: usize) -> u32 {
     7000 + (b * 100 + s * 10 + p) as u32
 }
 
+/// reception time of a time code: codes < 200 are seconds after the base, codes 200.. are the corners of the u64 range
+const CORNERS: [u64; 7] = [0, 1, (1 << 63) - 1, 1 << 63, (1 << 63) + 1, u64::MAX - 1, u64::MAX];
+fn recv_us(t: u8) -> u64 {
+    if t >= 200 {
+        CORNERS[(t - 200) as usize]
+    } else {
+        (BASE_SECS + t as u64) * S
+    }
+}
 /// the message (bucket b, sub-source s, position p, reception t) as a struct
 fn gen_msg(b: usize, s: usize, p: usize, t: u8) -> DltMessage {
     let ecu = [b'S', b'R', b'0' + b as u8, b'0' + s as u8];
     mk_msg(
         own_index(b, s, p),
         &ecu,
-        (BASE_SECS + t as u64) * S,
+        recv_us(t),
         (p as u32 + 1) * 10,
         true,
         Some((MTIN_LOG_INFO_V, 0, *b"APID", *b"CTID")),
@@ -346,8 +355,8 @@ fn judge(
         }
     }
     if !chain && seen.iter().all(|v| is_sorted(v)) && !is_sorted(out) {
-        let t: Vec<u64> = out.iter().map(|m| m.reception_time_us / S - BASE_SECS).collect();
-        ctx.violation("time_order", "", case, format!("every source ordered by reception time but output times {:?}", t));
+        let t: Vec<u64> = out.iter().map(|m| m.reception_time_us).collect();
+        ctx.violation("time_order", "", case, format!("every source ordered by reception time but output times (us) {:?}", t));
         return false;
     }
     true
@@ -658,7 +667,7 @@ impl Prop for C09 {
         Meta {
             id: "C09",
             level: "exploration",
-            rule: "every family of k sources x n messages per source x every tuple of reception times (equal, increasing, unordered) x start index x constructor variant is run on the real SortingMultiReaderIterator / SequentialMultiIterator (new and new_or_single_it; Vec-backed and DltMessageIterator-backed sources; merge of chains as built by `adlt convert`); list-model oracle: multiset equality, unchanged content, per-source order, indices consecutive from the start index, reception-time order when every source is ordered, chain = concatenation; exactly one source through new_or_single_it is held to the documented pass-through. Long chains of empty sources run in a subprocess with an 8 MiB stack; death by signal is a violation. A case is non-trivial when it has >= 2 sources and >= 2 messages.".into(),
+            rule: "every family of k sources x n messages per source x every tuple of reception times (equal, increasing, unordered; plus a family over the corners of the u64 time range 0, 1, 2^63-1, 2^63, 2^63+1, 2^64-2, 2^64-1) x start index x constructor variant is run on the real SortingMultiReaderIterator / SequentialMultiIterator (new and new_or_single_it; Vec-backed and DltMessageIterator-backed sources; merge of chains as built by `adlt convert`); list-model oracle: multiset equality, unchanged content, per-source order, indices consecutive from the start index, reception-time order when every source is ordered, chain = concatenation; exactly one source through new_or_single_it is held to the documented pass-through. Long chains of empty sources run in a subprocess with an 8 MiB stack; death by signal is a violation. A case is non-trivial when it has >= 2 sources and >= 2 messages.".into(),
             assumptions: vec![
                 "bounds as listed under coverage.families; start indices 0, 1000 and the largest start for which the numbering fits u32 (numbering that would wrap the index type is not explored)".into(),
                 "sources are finite and fused (return None forever after their end)".into(),
@@ -676,6 +685,7 @@ impl Prop for C09 {
                 "reader_backed_sources",
                 "merge_of_chains",
                 "subprocess_chain_ran",
+                "time_corners",
             ],
         }
     }
@@ -696,6 +706,37 @@ impl Prop for C09 {
         }
         if !self.flat_family(ctx, "chain", 3, 3, 3, &chain, &starts, false) {
             return;
+        }
+        // (1b) corners of the u64 reception-time range (0, 1, 2^63-1, 2^63, 2^63+1, u64::MAX-1, u64::MAX) + one ordinary time
+        {
+            let codes: [u8; 8] = [2, 200, 201, 202, 203, 204, 205, 206];
+            let mut cfgs: Vec<Vec<u8>> = vec![vec![]];
+            for n in 1..=2usize {
+                enumr::sequences(n, codes.len(), |ix| {
+                    cfgs.push(ix.iter().map(|x| codes[*x]).collect());
+                    true
+                });
+            }
+            let kmax = if quick { 2 } else { 3 };
+            for k in 2..=kmax {
+                ctx.begin_family("merge_time_corners", &format!("sources={k} msgs/source=0..2 reception in {{base+2s, 0, 1, 2^63-1, 2^63, 2^63+1, 2^64-2, 2^64-1}} (all tuples) starts=2 apis={:?}", merge.iter().map(|a| a.name()).collect::<Vec<_>>()));
+                let done = enumr::product(&vec![cfgs.len(); k], |ix| {
+                    for st in &starts[..2] {
+                        for api in &merge {
+                            if ctx.mine() {
+                                ctx.landmark("time_corners");
+                                let case = Case { family: "merge_time_corners".into(), api: *api, start: *st, nest: false, reader: false, buckets: ix.iter().map(|i| vec![cfgs[*i].clone()]).collect() };
+                                run_case(ctx, &case);
+                            }
+                        }
+                    }
+                    !(ctx.sum.evaluations % 2048 == 0 && ctx.out_of_time())
+                });
+                ctx.end_family(done);
+                if !done {
+                    return;
+                }
+            }
         }
         // (2) sources = real DltMessageIterator over in-memory storage-framed bytes
         if !self.flat_family(ctx, "reader_sources", 3, 2, 3, &all, &starts[..2], true) {
